@@ -337,6 +337,7 @@ fn hs_probes(p: &Proto, k: usize, thorough: bool) -> Vec<Op> {
                 out.push(Op::SetPsk { side: s, loc, klen });
             }
         }
+        out.push(Op::RawSplit { side: s });
     }
     out
 }
@@ -427,7 +428,7 @@ fn session_sweep(ctx: &Ctx, p: &Proto, thorough: bool) {
                             ctx.violation(format!("{} panicked ({m})", sess::op_kind(op).split('(').next().unwrap_or("call")), format!("{}: after {j} honest calls: {op:?}", p.name), sess::case_json(&cfg, &ops));
                             break;
                         },
-                        Real::Ok(..) if !matches!(op, Op::SetPsk { .. }) => break,
+                        Real::Ok(..) if !matches!(op, Op::SetPsk { .. } | Op::RawSplit { .. }) => break,
                         _ => {},
                     }
                 }
@@ -442,7 +443,7 @@ fn session_sweep(ctx: &Ctx, p: &Proto, thorough: bool) {
             }
         }
         // conversions at any time
-        for conv in [Op::ToTransport { side: Side::I }, Op::ToStateless { side: Side::I }, Op::ToTransport { side: Side::R }, Op::ToStateless { side: Side::R }] {
+        for conv in [Op::ToTransport { side: Side::I }, Op::ToStateless { side: Side::I }, Op::ToTransport { side: Side::R }, Op::ToStateless { side: Side::R }, Op::TryIntoTransport { side: Side::I }, Op::TryIntoStateless { side: Side::R }] {
             let mut ops = prefix.clone();
             ops.push(conv.clone());
             let e = Exec::run(&cfg, &ops);
